@@ -115,7 +115,20 @@ func (f *c35Files) renderConfig() string {
 	fmt.Fprintf(&sb, "PeerManagement:\n  Type: file\n  Identifier: 127.0.0.1\n  Peers:\n    - http://127.0.0.1:%d\n", f.ports.peer)
 	fmt.Fprintf(&sb, "Collection:\n  WorkerCount: %d\n  IncomingQueueSize: 4000\n  PeerQueueSize: 4000\n  HealthCheckTimeout: 3s\n  ShutdownDelay: 100ms\n", f.sc.Workers)
 	fmt.Fprintf(&sb, "Specialized:\n  EnvironmentCacheTTL: 15m\n  AdditionalAttributes:\n    cluster: c35\n    variant: \"v%d\"\n", v%3)
-	fmt.Fprintf(&sb, "SampleCache:\n  KeptSize: %s\n  DroppedSize: %s\n  SizeCheckInterval: 1s\n", pick(1, "1000", "3000"), pick(2, "20000", "50000"))
+	kept, dropped := 1000, 20000
+	if f.sc.KeptPerWorker > 0 {
+		kept = f.sc.KeptPerWorker * f.sc.Workers
+	}
+	if f.sc.DroppedPerWorker > 0 {
+		dropped = f.sc.DroppedPerWorker * f.sc.Workers
+	}
+	if v&1 != 0 {
+		kept *= 3
+	}
+	if v&2 != 0 {
+		dropped *= 2
+	}
+	fmt.Fprintf(&sb, "SampleCache:\n  KeptSize: %d\n  DroppedSize: %d\n  SizeCheckInterval: 1s\n", kept, dropped)
 	fmt.Fprintf(&sb, "StressRelief:\n  Mode: %s\n  ActivationLevel: 90\n  DeactivationLevel: 75\n  SamplingRate: %s\n  MinimumActivationDuration: 100ms\n",
 		f.stressMode, pick(4, "2", "10"))
 	return sb.String()
@@ -209,6 +222,28 @@ Samplers:
       FieldList:
         - service.name
 `,
+	// 4: drop heavy
+	`RulesVersion: 2
+Samplers:
+  __default__:
+    DeterministicSampler:
+      SampleRate: 50
+  ds0:
+    RulesBasedSampler:
+      Rules:
+        - Name: keep errors
+          SampleRate: 1
+          Conditions:
+            - Field: http.status_code
+              Operator: =
+              Value: 500
+              Datatype: int
+        - Name: drop the rest
+          Drop: true
+  env1:
+    DeterministicSampler:
+      SampleRate: 100
+`,
 }
 
 func (f *c35Files) writeAtomic(path, content string) error {
@@ -238,6 +273,10 @@ func (f *c35Files) setRules(v int) error {
 	f.mu.Lock()
 	defer f.mu.Unlock()
 	f.rulesVar = v % len(c35RulesVariants)
+	if f.sc.DropHeavy {
+		// stay drop heavy most of the time
+		f.rulesVar = []int{4, 4, 1, 4, 3}[v%5]
+	}
 	return f.writeAtomic(f.rulesPath, c35RulesVariants[f.rulesVar])
 }
 
@@ -348,6 +387,7 @@ func c35Build(sc c35Scenario, dir string) (*c35World, *c35Fake, []*c35Fake, erro
 	if err := w.files.setConfigVariant(0); err != nil {
 		return nil, nil, nil, err
 	}
+	// setRules(0) selects rule set 0 (keep all), or 4 (drop heavy) in a drop-heavy scenario
 	if err := w.files.setRules(0); err != nil {
 		return nil, nil, nil, err
 	}
@@ -463,6 +503,7 @@ type c35ActorState struct {
 	w        *c35World
 	id       int
 	n        int // op counter (makes trace/span ids unique per actor)
+	fresh    int // counter behind never-seen trace ids
 	executed map[string]int
 	status   map[string]int
 }
@@ -650,6 +691,33 @@ func (a *c35ActorState) exec(op c35Op) {
 			a.n++
 		}
 		a.burst(op.Kind, in+"/1/batch/"+ds, map[string]string{"X-Honeycomb-Team": key, "Content-Type": ct}, bodies)
+	case c35BatchFresh:
+		// distinct one-span traces (root spans: decided after SendDelay), ids never
+		// used before; preferably owned by this node so that the decision is made here
+		size := []int{21, 34, 55}[op.Arg%3]
+		var evs []map[string]any
+		for k := 0; k < size; k++ {
+			var tid string
+			for try := 0; try < 6; try++ {
+				a.fresh++
+				tid = fmt.Sprintf("%08x%08x%016x", 0xf00d0000+a.id, a.fresh, uint64(a.fresh)*0x9E3779B97F4A7C15)
+				if w.shrdr.WhichShard(tid).Equals(w.shrdr.MyShard()) {
+					break
+				}
+			}
+			evs = append(evs, map[string]any{"samplerate": 1, "data": a.spanData(tid, k, true)})
+		}
+		var body []byte
+		ct := "application/json"
+		if op.Arg%2 == 1 {
+			body, _ = msgpack.Marshal(evs)
+			ct = "application/msgpack"
+		} else {
+			body, _ = json.Marshal(evs)
+		}
+		// two connections at once
+		body2 := append([]byte(nil), body...)
+		a.burst(op.Kind, in+"/1/batch/"+ds, map[string]string{"X-Honeycomb-Team": key, "Content-Type": ct}, [][]byte{body, body2}[:1+op.Arg%2])
 	case c35Event:
 		own := op.Arg%2 == 0
 		b, _ := json.Marshal(a.spanData(a.traceID(own, 0), 0, op.Arg%3 == 0))
@@ -791,7 +859,33 @@ func c35RunScenario(sc c35Scenario, dir string) c35ChildSummary {
 			}
 		}(act.Ops)
 	}
+	// observe the dropped-trace cuckoo filter gauges (written by Maintain)
+	sampDone := make(chan struct{})
+	var sampWG sync.WaitGroup
+	var maxCur, maxFut float64
+	sampWG.Add(1)
+	go func() {
+		defer sampWG.Done()
+		tick := time.NewTicker(50 * time.Millisecond)
+		defer tick.Stop()
+		for {
+			if v, ok := w.metrics.Get("cuckoo_current_load_factor"); ok && v > maxCur {
+				maxCur = v
+			}
+			if v, ok := w.metrics.Get("cuckoo_future_load_factor"); ok && v > maxFut {
+				maxFut = v
+			}
+			select {
+			case <-sampDone:
+				return
+			case <-tick.C:
+			}
+		}
+	}()
 	wg.Wait()
+	close(sampDone)
+	sampWG.Wait()
+	sum.MaxCurrentLoad, sum.MaxFutureLoad = maxCur, maxFut
 	sum.ActorsMs = time.Since(t0).Milliseconds()
 	// orderly end: stop the app if the scenario did not
 	if w.stopping.CompareAndSwap(false, true) {
